@@ -3,7 +3,8 @@
    (extracted to OCaml, or evaluated inside Coq with vm_compute on the same text).
    Definitions only. *)
 From Coq Require Import String.
-From PC Require Export Model.Circuit Model.Entropy Model.Parse Model.Random Model.Diag Model.Index.
+From Coq Require Import QArith Qcanon.
+From PC Require Export Model.Circuit Model.Entropy Model.Parse Model.Random Model.Diag Model.Index Model.Poly.
 Open Scope Z_scope.
 
 Inductive val := VZ (z : Z) | VL (l : list val) | VE (code : Z).
@@ -38,6 +39,20 @@ Definition dInstr (v : val) : instr :=
   | _ => IMeasure []
   end.
 
+(* coefficients: [[re_num re_den] [im_num im_den]] *)
+Definition dQ (v : val) : Qc :=
+  match v with VL [a; b] => Q2Qc (Qmake (dZ a) (Z.to_pos (dZ b))) | _ => Q2Qc 0 end.
+Definition dCoef (v : val) : coef := match v with VL [a; b] => (dQ a, dQ b) | _ => c0 end.
+Definition dTerm (v : val) : term := match v with VL [c; a] => (dCoef c, dPauli a) | _ => (c0, ([], 0)) end.
+Definition dObj (v : val) : pobj :=
+  match v with
+  | VL [VZ 0; a] => OPauli (dPauli a)
+  | VL [VZ 1; c; a] => OMono (dCoef c) (dPauli a)
+  | VL [VZ 2; n; VL ts] => OPoly (dN n) (map dTerm ts)
+  | VL [VZ 3; l] => OList (dPlist l)
+  | VL [VZ 4; c] => ONum (dCoef c)
+  | _ => OErr
+  end.
 (* ---- encoders ---- *)
 Definition eB (b : bool) : val := VZ (zb b).
 Definition eN (n : nat) : val := VZ (Z.of_nat n).
@@ -53,9 +68,37 @@ Definition eLayers (c : list clayer) : val :=
   eL (fun x => match x with
                | CL l => VL [VZ 0; eL eGateShape (lgates l)]
                | ML q => VL [VZ 1; eL eN q] end) c.
+Definition eQ (q : Qc) : val := VL [VZ (Qnum (this q)); VZ (Zpos (Qden (this q)))].
+Definition eCoef (c : coef) : val := VL [eQ (fst c); eQ (snd c)].
 Definition errNone : val := VE 1.        (* the code raises here *)
 Definition eOptE {A} (f : A -> val) (o : option A) : val := match o with Some a => f a | None => errNone end.
 
+Definition eObj (o : pobj) : val :=
+  match o with
+  | OPauli a => VL [VZ 0; ePauli a]
+  | OMono c a => VL [VZ 1; eCoef c; ePauli a]
+  | OPoly n p => VL [VZ 2; eN n; eL (fun t : term => VL [eCoef (fst t); ePauli (snd t)]) p]
+  | OList l => VL [VZ 3; ePlist l]
+  | ONum c => VL [VZ 4; eCoef c]
+  | OErr => VE 1
+  end.
+(* expression trees: [0 obj] leaf | [1 e] neg | [2 c e] rmul | [3 e c] div | [4 e1 e2] add | [5 e1 e2] sub | [6 e1 e2] matmul | [7 e] reduce *)
+Fixpoint eval_expr (fuel : nat) (tol2 : Qc) (v : val) : pobj :=
+  match fuel with
+  | O => OErr
+  | S f =>
+      match v with
+      | VL [VZ 0; o] => dObj o
+      | VL [VZ 1; e] => o_neg (eval_expr f tol2 e)
+      | VL [VZ 2; c; e] => o_rmul (dCoef c) (eval_expr f tol2 e)
+      | VL [VZ 3; e; c] => o_div (eval_expr f tol2 e) (dCoef c)
+      | VL [VZ 4; a; b] => o_add tol2 (eval_expr f tol2 a) (eval_expr f tol2 b)
+      | VL [VZ 5; a; b] => o_sub tol2 (eval_expr f tol2 a) (eval_expr f tol2 b)
+      | VL [VZ 6; a; b] => o_matmul (eval_expr f tol2 a) (eval_expr f tol2 b)
+      | VL [VZ 7; e] => o_reduce tol2 (eval_expr f tol2 e)
+      | _ => OErr
+      end
+  end.
 Local Open Scope string_scope.
 Local Open Scope Z_scope.
 Definition is (a b : string) : bool := String.eqb a b.
@@ -166,6 +209,14 @@ Definition run (name : string) (a : val) : val :=
   else if is name "parse_dict" then eOptE ePauli (parse_dict (dN a0) (dL (fun v => (dZ (arg v 0), dZ (arg v 1))) a1))
   else if is name "repr" then eL VZ (repr_pauli (dPauli a0))
   else if is name "tokenize" then eL VZ (tokenize (dPauli a0))
+  (* ---- polynomials ---- *)
+  else if is name "poly_eval" then eObj (eval_expr 64 (dQ a0 * dQ a0)%Qc a1)   (* tol, expression *)
+  else if is name "poly_trace_impl" then eOptE eCoef (trace_impl (dObj a0))
+  else if is name "poly_trace_true" then eOptE eCoef (trace_true (dObj a0))
+  else if is name "poly_rotate" then
+         match dObj a2 with OPoly n p => eObj (OPoly n (poly_rotate (dPauli a0) (dOpt dMask a1) p)) | _ => VE 1 end
+  else if is name "poly_transform" then
+         match dObj a2 with OPoly n p => eObj (OPoly n (poly_transform (dPlist a0) (dOpt dMask a1) p)) | _ => VE 1 end
   (* ---- indexing ---- *)
   else if is name "get_int" then eOptE ePauli (get_int (dPlist a0) (dZ a1))
   else if is name "get_slice" then ePlist (get_slice (dPlist a0) (dOpt dZ a1) (dOpt dZ a2))
